@@ -4,8 +4,12 @@ Paragraph level: the lines a paragraph fragment holds are exactly the consecutiv
 position, and the resume position handed to the next page is the line after the last one kept — so
 no line is lost, duplicated or reordered by line breaking across pages, for any number of lines,
 any page geometry, any orphans / widows.
+Block level (second half of the file): `segment` (every `block_level_layout` call: fragment lines ++ rest =
+lines from the skip position, through nested blocks, `find_earlier_page_break`, orphans/widows) and
+`pages_conserve` (the pages of `make_all_pages`, concatenated, are the lines of the document).
 -/
 import WpModel.Lemmas.ParaLines
+import WpModel.Lemmas.SegmentPages
 
 namespace Wp.C01
 open Wp Wp.PM
@@ -79,5 +83,131 @@ def exResult : LineResult :=
 
 example : exResult.lines.map Prod.fst = [1, 2] ∧ exResult.stop = true :=
   ⟨by decide +kernel, by decide +kernel⟩
+
+/-! ### block level: nothing lost, duplicated or reordered (nested blocks and paragraphs)
+
+`fragLines f` = the (paragraph id, line number) pairs a fragment shows, in tree order;
+`linesFrom box skip` = the lines of the source box at / after the skip position (`none` = all);
+`restOut box resume` = what is left for the next page (`[]` when `resume = none`).
+Hypotheses: no fixed `height` in the subtree (`forgetIfFixed` deliberately drops overflowing children:
+known finding) and `orphans, widows ≥ 1` (what the CSS validator accepts). No hypothesis on the page
+geometry, margins, break properties, or on the skip position. -/
+
+/-- Reading of `linesFrom … none`: a paragraph has its lines `0 … n-1`, a block the lines of its
+children in order. -/
+theorem linesFrom_none_para (id n : Nat) (lineH : Rat) (st : PStyle) :
+    linesFrom (.para id n lineH st) none = (List.range n).map (fun i => (id, i)) := by
+  simp [linesFrom, paraLines, paraStart, skipLine, List.range_eq_range']
+
+theorem linesFrom_none_block (id : Nat) (st : PStyle) (kids : List PBox) :
+    linesFrom (.block id st kids) none = (kids.map (fun k => linesFrom k none)).flatten := by
+  simp only [linesFrom, skipIdxOf_none, subSkipOf_none]
+  induction kids with
+  | nil => simp [linesFromKids]
+  | cons k ks ih => simp [linesFromKids, ih]
+
+/-- **Segment theorem** (`block_level_layout`): whenever a layout returns a fragment, the lines shown by the
+fragment followed by the lines designated by the returned resume position are exactly the lines
+designated by the skip position it was given — nothing lost, duplicated or reordered, through
+`_in_flow_layout`, `find_earlier_page_break`, `_linebox_layout`, `_break_line`, at any nesting depth. -/
+theorem segment (box : PBox) (hN : NoFixedHeight box) (hW : WellFormed box) (c : Ctx) (idx : Nat) (y bs : Rat)
+    (skip : Option Resume) (cb pie : Bool) (adjL : List Rat) (f : Frag)
+    (h : (layoutBox c box idx y bs skip cb pie adjL).frag = some f) :
+    fragLines f ++ restOut box (layoutBox c box idx y bs skip cb pie adjL).resume = linesFrom box skip :=
+  boxPost_lines _ _ _ _ _ (box_spec box (good_of box hN hW) c idx y bs skip cb pie adjL) h
+
+/-- When nothing is left (`resume = none`) the fragment is structurally the complete rest of the box:
+one complete fragment per child from the skip position on, `.idx` = position of the child. -/
+theorem segment_complete (box : PBox) (hN : NoFixedHeight box) (hW : WellFormed box) (c : Ctx) (idx : Nat)
+    (y bs : Rat) (skip : Option Resume) (cb pie : Bool) (adjL : List Rat) (f : Frag)
+    (h : (layoutBox c box idx y bs skip cb pie adjL).frag = some f)
+    (hr : (layoutBox c box idx y bs skip cb pie adjL).resume = none) : Full f box skip := by
+  have := box_spec box (good_of box hN hW) c idx y bs skip cb pie adjL f h
+  rw [hr] at this
+  exact this
+
+/-- `find_earlier_page_break` on complete children: the children kept plus what the returned resume
+position designates are what was there. -/
+theorem find_earlier_conserves (fs : List Frag) (bs : List PBox) (i : Nat) (sub : Option Resume)
+    (hN : NoFixedHeightList bs) (hW : WellFormedList bs) (hfull : FullFrom fs bs i sub)
+    (kept : List Frag) (r : Resume) (h : findEarlierList fs = some (kept, r)) :
+    ∃ m sub', r = .node (i + m) sub' ∧ m < bs.length ∧
+      fragLinesList kept ++ linesFromKids bs m sub' = fragLinesList fs := by
+  obtain ⟨m, sub', hr, hm, hl, _⟩ := (findEarlierGo_spec fs bs i sub (goodList_of bs hN hW) hfull).2 kept r h
+  exact ⟨m, sub', hr, hm, by rw [hl, fullFrom_lines _ _ _ _ hfull]⟩
+
+/-- One page: a non-blank page shows a prefix of what was left, a blank page shows nothing and leaves
+the resume position untouched. -/
+theorem page_segment (d : Doc) (hN : NoFixedHeight d.root) (hW : WellFormed d.root) (index : Nat)
+    (resume : Option Resume) (np : NextPage) (right : Bool) (p : Page)
+    (hp : remakePage d index resume np right = some p) :
+    (p.type.blank = true → fragLines p.root = [] ∧ p.resume = resume) ∧
+    (p.type.blank = false → fragLines p.root ++ restOut d.root p.resume = linesFrom d.root resume) := by
+  obtain ⟨h1, h2⟩ := remakePage_lines d (good_of _ hN hW) index resume np right p hp
+  exact ⟨fun hb => ⟨(h1 hb).1, (h1 hb).2.1⟩, fun hb => (h2 hb).1⟩
+
+private theorem pagesLines_eq (pages : List Page) :
+    pagesLines pages = (pages.map (fun p => fragLines p.root)).flatten := by
+  induction pages with
+  | nil => rfl
+  | cons p ps ih => simp [pagesLines, ih]
+
+/-- **Pages theorem** (`make_all_pages`): the lines shown by the pages, concatenated in page order, are
+exactly the lines of the document, in document order — nothing lost, duplicated or reordered; blank
+pages contribute nothing. For any fuel for which the pagination returns. -/
+theorem pages_conserve (d : Doc) (hN : NoFixedHeight d.root) (hW : WellFormed d.root) (fuel : Nat)
+    (pages : List Page) (h : paginate d fuel = some pages) :
+    (pages.map (fun p => fragLines p.root)).flatten = linesFrom d.root none := by
+  rw [← pagesLines_eq]
+  unfold paginate at h
+  exact makeAllPages_lines d (good_of _ hN hW) fuel 0 none _ _ pages (fun _ => by simp [requestedSide, isBlank]) h
+
+/-! Non-vacuity: nested blocks, a paragraph with `orphans = widows = 2`, an empty block, a forced
+`break-before: left` that inserts a blank page: 6 pages. -/
+def exDoc : Doc :=
+  { pageH := 25, rootLtr := true,
+    root := .block 0 { exStyle with isRoot := true }
+      [.para 1 3 10 exStyle, .block 2 exStyle [.para 3 4 10 { exStyle with orphans := 2, widows := 2 }],
+       .block 4 exStyle [], .para 5 1 10 { exStyle with brkBefore := .left }] }
+
+example : NoFixedHeight exDoc.root ∧ WellFormed exDoc.root := by
+  simp [exDoc, NoFixedHeight, NoFixedHeightList, WellFormed, WellFormedList, exStyle]
+
+example : (paginate exDoc 50).map (fun ps => ps.map (fun p => (p.type.blank, fragLines p.root))) =
+    some [(false, [(1, 0), (1, 1)]), (false, [(1, 2)]), (false, [(3, 0), (3, 1)]), (false, [(3, 2), (3, 3)]),
+      (true, []), (false, [(5, 0)])] ∧
+    linesFrom exDoc.root none = [(1, 0), (1, 1), (1, 2), (3, 0), (3, 1), (3, 2), (3, 3), (5, 0)] :=
+  ⟨by decide +kernel, by decide +kernel⟩
+
+/-- the segment theorem's hypothesis on a resumed layout: page 3 of `exDoc` (resumed inside the nested
+paragraph) returns a fragment and a further resume position. -/
+example :
+    let r := layoutBox { pageBottom := 25, currentPage := 3, forcedBreak := false } exDoc.root 0 0 0
+      (some (.node 1 none)) false true []
+    r.frag.map fragLines = some [(3, 0), (3, 1)] ∧ r.resume.isSome = true ∧
+      restOut exDoc.root r.resume = [(3, 2), (3, 3), (5, 0)] :=
+  ⟨by decide +kernel, by decide +kernel, by decide +kernel⟩
+
+/-- `segment_complete`: the last page of `exDoc` (resumed at the fourth child) leaves nothing. -/
+example :
+    let r := layoutBox { pageBottom := 25, currentPage := 6, forcedBreak := true } exDoc.root 0 0 0
+      (some (.node 3 none)) false true []
+    r.frag.map fragLines = some [(5, 0)] ∧ r.resume.isNone = true :=
+  ⟨by decide +kernel, by decide +kernel⟩
+
+/-- `find_earlier_conserves`: two complete paragraph fragments; the earlier break found is the one
+between them (resume = second child). -/
+def exGeo : Geo := { y := 0, mt := 0, mb := 0, pt := 0, pb := 0, bt := 0, bb := 0, h := 20 }
+def exFrags : List Frag :=
+  [.para 1 0 exStyle 3 exGeo [(0, 0), (1, 10), (2, 20)], .para 2 1 exStyle 1 exGeo [(0, 30)]]
+def exBoxes : List PBox := [.para 1 3 10 exStyle, .para 2 1 10 exStyle]
+
+example : NoFixedHeightList exBoxes ∧ WellFormedList exBoxes ∧ FullFrom exFrags exBoxes 0 none ∧
+    (findEarlierList exFrags).map (fun kr => (fragLinesList kr.1, skipIdxOf (some kr.2))) =
+      some ([(1, 0), (1, 1), (1, 2)], 1) := by
+  refine ⟨?_, ?_, ?_, by decide +kernel⟩
+  · simp [exBoxes, NoFixedHeightList, NoFixedHeight, exStyle]
+  · simp [exBoxes, WellFormedList, WellFormed, exStyle]
+  · simp [exFrags, exBoxes, FullFrom, Full, paraStart, skipLine, Frag.idx, List.range']
 
 end Wp.C01
